@@ -71,7 +71,8 @@ PROPS["C02"] = dict(
     rule=("one real node (protocol version 2-5, own incarnation 1-4 at the start) with one live scripted peer; rapid draws 1-12 steps of "
           "accusations about the node itself (suspect, dead, forged leave, alive newer / equal with other metadata or version vector / identical, "
           "and the four push/pull row states; incarnation 0, own-1, own, own+1, own+2, own+1000, 2^31, 2^32-2; accuser peer/unknown/self; carrier single, "
-          "compound, compressed, CRC, piggybacked on a ping, push/pull join or not), UpdateNode with new metadata, and sleeps. After each step: the node "
+          "compound, compressed, CRC, piggybacked on a ping, push/pull join or not), UpdateNode with new metadata, and sleeps; in 4 plans of 7 a peer's memory of an earlier life of the node "
+          "(alive about it at incarnation 1/2/7/2^20 with other metadata) arrives while Create is still running (inside the delegate's NodeMeta call, the listeners are already up). After each step: the node "
           "lists itself, its own record (state dump) is alive, LocalNode agrees, own incarnation never decreases; for an effective accusation the own "
           "incarnation is strictly above it and an alive message with exactly that incarnation and the current metadata leaves the node within 6 gossip "
           "intervals. non-trivial = effective accusation; distinct = (accusation, incarnation mode, carrier, meta/vsn variation, accuser, protocol version)"),
